@@ -208,6 +208,7 @@ class Gen:
         self.contracts = {}
         self.assumption_scan = []
         self.dropped = []
+        self.anchor_lines = {}
 
 
 def load_unit(unit):
@@ -237,6 +238,15 @@ def build(unit, model, repo=None, mutate_false=None, tag=""):
                 raise UnitError(f"duplicate contract {k}")
             contracts[k] = v
     req_contracts = {}
+    # pinned relative lines of anchors (recorded by --pin) help to re-find an edited anchored statement
+    pinned_anchor_lines = {}
+    bpath = os.path.join(udir, f"baseline_{model}.json")
+    if os.path.exists(bpath):
+        try:
+            with open(bpath) as bf:
+                pinned_anchor_lines = json.load(bf).get("anchor_lines", {})
+        except Exception:
+            pinned_anchor_lines = {}
     trait_impl_fns = set(cfg.get("trait_impl_fns", []))
     for k, c in contracts.items():
         if mutate_false == k and k in trait_impl_fns:
@@ -246,6 +256,13 @@ def build(unit, model, repo=None, mutate_false=None, tag=""):
             req_contracts[k] = contract_to_request(c, False)
         else:
             req_contracts[k] = contract_to_request(c, mutate_false == k)
+    for k, rc in req_contracts.items():
+        for ins in rc.get("inserts", []):
+            ins["droppable"] = True
+            key = f"{ins['pos']}|{ins['anchor']}|{ins.get('occurrence', 0)}"
+            hl = pinned_anchor_lines.get(k, {}).get(key)
+            if hl is not None:
+                ins["hint_line"] = hl
     rules = dict(cfg.get("rules", {}))
     rules.update(mcfg.get("rules", {}))
     sources = json.loads(json.dumps(cfg["sources"]))
@@ -296,6 +313,8 @@ def build(unit, model, repo=None, mutate_false=None, tag=""):
             linemap.append((seg["file"], src) if src else (seg["file"], 0))
         for k, v in seg["rewrites"].items():
             total_rw[k] = total_rw.get(k, 0) + v
+        for (fk, akey, rel) in seg.get("anchor_lines", []):
+            g.anchor_lines.setdefault(fk, {})[akey] = rel
         # function ranges in generated coordinates
         for fn in seg["fns"]:
             gs = ge = None
